@@ -20,6 +20,7 @@ def run(ctx):
     recs, meta, errors = lc.gather(ctx, ["random", "dense", "bounds", "float", "relayout", "direct"])
     if errors:
         ctx.notes.append("%d layouts raised RecursionError (not part of C01)" % len(errors))
+    lc.report_errors(ctx, errors, "C01_")
     lc.check(ctx, "LayoutC01.cfg", recs, meta, "C01_")
     ctx.evaluations += len(recs)
     ctx.nontrivial += len({lc.keyof(r) for r in recs if lc.moved(r)})
